@@ -239,7 +239,7 @@ func TestC04_RandomPrograms(t *testing.T) {
 // TestC04_Components: a component (and a slot body evaluated in it) is a block.
 func TestC04_Components(t *testing.T) {
 	c := harness.New(t, "C04", "components",
-		"template directories generated with the program generator of random-programs in which component uses appear at every nesting position: each use has a component file of its own that is a generated block (assignments and reads over {a, b, c, loop}, @if/@each/@for), 0..3 arguments named like the assignable names (same or different type as a visible namesake), optionally a placeholder and a slot body that is again a generated block, and the page goes on reading and assigning after the use; with and without an argument object. Expected rendering or error from the reference scope chain (the component's block encloses the caller's names; what it binds is gone after the use). Non-trivial: a component file or slot body that assigns a name which the page reads later, or an argument named like a visible name. Distinct by hash of files + data.")
+		"template directories generated with the program generator of random-programs in which component uses appear at every nesting position: each use has a component file of its own that is a generated block (assignments and reads over {a, b, c, loop}, @if/@each/@for), 0..3 arguments named like the assignable names (same or different type as a visible namesake; one use in twenty also an argument named loop, which must fail), optionally a placeholder and a slot body that is again a generated block, and the page goes on reading and assigning after the use; with and without an argument object. Expected rendering or error from the reference scope chain (the component's block encloses the caller's names; what it binds is gone after the use). Non-trivial: a component file or slot body that assigns a name which the page reads later, or an argument named like a visible name. Distinct by hash of files + data.")
 	defer c.Finish()
 	in := interp()
 	runRapid(t, c, 3000, 40000, func(rt *rapid.T) {
@@ -272,7 +272,7 @@ func TestC04_Components(t *testing.T) {
 		cs := treeCase{Files: printFiles(files, genLayout().Draw(rt, "layout")), Dir: "t", Ext: ".tw", Page: "page", Data: env.D, Want: wantFromOut(out)}
 		nt := g.Feat["nested-assign"] > 0 && g.Feat["read"] > 0 || g.Feat["arg-named-like-visible"] > 0
 		classes := []string{"outcome:" + out.St.String(), fmt.Sprintf("components:%d", min(g.Feat["component"], 4))}
-		for _, f := range []string{"slot-body", "arg-named-like-visible", "nested-assign-to-visible", "type-collision"} {
+		for _, f := range []string{"slot-body", "arg-named-like-visible", "nested-assign-to-visible", "type-collision", "arg-named-loop"} {
 			if g.Feat[f] > 0 {
 				classes = append(classes, "has:"+f)
 			}
